@@ -86,3 +86,27 @@ check(
     "Trusted: TLC, the line/cell projection of the driver (reads Table._rows/_header_row for 'unchanged'). Known finding (open): style-tagged cells that must be wrapped are cut by tag-unaware textwrap. Hyphenated words, tabs, embedded newlines, East-Asian widths outside the model.",
     "DESIGN.md#C14",
 )
+check(
+    "C03",
+    ["Resolver", "ResolverTrace"],
+    "TLA+ model of DefaultResolver on command trees (P: Lead / Path / Allowed / OutcomeOK and the alias, trailing-option, separator and hidden laws; A: Leading, Descend per token, Pick first-parsable default, Final) checked by TLC; every tree x line replayed on ConsoleApplication.resolve_command; simulated full-family cases and random trees decided by ResolverTrace.tla",
+    "TLC enumerates 288 trees (skeleton of depth 3 with aliases; kinds plain/default/anonymous, enabled/disabled, strict/lenient varied) x every line of a path prefix up to 2 (quick) / 3 (thorough) tokens over names, aliases and an unknown word x 8 suffixes (argument, flag, flag + name, --opt=v + name, '--' tails) and checks that the outcome is the one the statement names plus the metamorphic laws; the real resolver reproduces the model's outcome and per-command parsability on every case (argv and string form alternating); 1500/40000 simulated cases over the full attribute family and 600/12000 random trees (depth <= 3, fan-out <= 3) with random lines are decided by TLC on the observed selection.",
+    "Trusted: TLC, Json, build_app/observe projection (command identity -> node id, message of CannotResolveCommandException -> undefined token). Sibling names/aliases unique; several default sub-commands: any is allowed; strict commands declare no arguments, lenient ones accept everything.",
+    "DESIGN.md#C03",
+)
+check(
+    "C19",
+    ["Spinner", "SpinnerTrace"],
+    "TLA+ model of ProgressIndicator auto mode as two processes + clock over the shared Terminal model (NoMix, Joined, EndFrame, Terminates under weak fairness; Locked = FALSE must violate NoMix) and of manual mode; TLC-generated and random schedules enforced step by step on the real threads by a baton scheduler (shims for threading/time, yielding stream) and validated by SpinnerTrace.tla",
+    "TLC explores every interleaving of the spinner thread with the main thread's set_message / work / raise / exit at the granularity of single stream writes, sleeps, Event and Lock operations for all small bodies (86 k states quick, 1.08 M thorough) including liveness (the with-block always joins the spinner); each of the 3 213 (quick) interleavings, simulated and random schedules is enforced on the real ProgressIndicator.auto() with a virtual clock - no wall-clock anywhere - and the observed writes are applied to the Terminal model by TLC, which evaluates NoMix / EndFrame / Joined; manual mode over all call sequences and clock advances.",
+    "Trusted: TLC, harness/engine/baton.py (scheduler; a stuck thread is a MachineryError, never a verdict), Terminal.tla. Pre-emption finer than a stream write / sleep is outside the statement's granularity.",
+    "DESIGN.md#C19",
+)
+check(
+    "C20",
+    ["ErrorReport", "ErrorReportTrace"],
+    "TLA+ models of the trace renderer (mode selection, frame filter, snippet window, split_to_lines as a fold over the token stream) checked by TLC; every model input replayed on ExceptionTrace/Highlighter; real exceptions from generated, exec'd and file-less code decided by ErrorReportTrace.tla",
+    "TLC enumerates the mode x verbosity x frame-ignore masks and snippet windows (MC_Report) and 1 110 / 11 110 token programs through the line-assembly fold (MC_Assemble), checking consecutive numbering, exactly one marker on the failing line and verbatim single-line-token rows; the real classes reproduce all of them; 1 500 / 12 000 real exceptions (generated modules with the failing statement at varying positions, multi-line statements/strings, comments, tabs, markup-like text; exec'd and file-less code; 27 adversarial messages x 8 exception kinds; causes; recursion to depth 60) x 4 verbosities x UTF-8 on/off x simple/full are rendered and decided by TLC.",
+    "Trusted: TLC, Python's tokenize for the token stream shipped with small sources. The highlighter over a corpus of real files is observation-level (row ids only). crashtest's folding of repeated frames and solution rendering are not modelled.",
+    "DESIGN.md#C20",
+)
